@@ -26,7 +26,10 @@ use core::cmp::{max, min};
 use core::convert::TryInto;
 use core::marker::PhantomData;
 use core::mem;
+#[cfg(not(redb_verif))]
 use core::sync::atomic::{AtomicBool, Ordering};
+#[cfg(redb_verif)]
+use {crate::sync::verif::atomic::AtomicBool, core::sync::atomic::Ordering};
 
 // The region header is optional in the v3 file format
 // It's an artifact of the v2 file format, so we initialize new databases without headers to save space
